@@ -404,3 +404,15 @@ mutant("c17-all-flag-not-passed-on", "C17", "cvss/cvss_calculator.py",
        "            vector_string = ask_interactively(version, args.all, args.no_colors)",
        "            vector_string = ask_interactively(version, args.all and not args.json, args.no_colors)",
        "-a is ignored when -j is given as well (clause g: the dialogue must ask all metrics)")
+mutant("c19-bounded-cache-goes-stale-when-full", "C19", edits=[
+    ("cvss/cvss2.py", "def round_to_1_decimal(value):", "_BASE_CACHE = {}\n\n\ndef round_to_1_decimal(value):"),
+    ("cvss/cvss2.py",
+     "        self.base_score = max(D(\"0.0\"), self.base_score_equation())",
+     """        key = tuple(self.metrics.get(m) for m in METRICS_MANDATORY)
+        if len(_BASE_CACHE) >= 100:
+            # cache is full: recycle the slot of an arbitrary entry (bug: the old value stays)
+            _BASE_CACHE[key] = _BASE_CACHE.pop(next(iter(_BASE_CACHE)))
+        if key not in _BASE_CACHE:
+            _BASE_CACHE[key] = max(D("0.0"), self.base_score_equation())
+        self.base_score = _BASE_CACHE[key]""")],
+    note="needs a history of >= 100 distinct CVSS2 base assignments before the probe")
